@@ -1,0 +1,81 @@
+//go:build verif
+
+// Contracts for the deductive verification harness in /verif (govc).
+// Comments only; compiled only with -tags verif and then contributes nothing.
+//
+// Specification vocabulary (defined in /verif/spec/*.smt2, independent of this code):
+//   view(n)        abstract tree (T) represented by the in-memory node n
+//   valid(n)       n is a well-formed node all the way down (heights, sizes, child links)
+//   lview/rview    views of the children (in memory, or the persisted dbview of the child key)
+//   ins/del/bal/rotL/rotR/mk/unver  the documented IAVL+ algorithms on T
+//   nframe(h0,h1,na)      every node that existed is kept (child pointers of committed nodes may be dropped, hashes filled in)
+//   nframeX(h0,h1,na,x)   as nframe except for node x
+//   inptr[x]       ghost: a pointer to x has been stored in some node's child field
+//   closed(x)      no node below id x points at or above x
+
+package iavl
+
+// ---------------------------------------------------------------- persistence boundary
+
+//@ func (*nodeDB).GetNode(ndb, nk) (res, err)
+//@   assumed persistence boundary (DESIGN §5): the bytes stored under a node key decode to the persisted subtree dbview(key); cache sharing is abstracted (the returned node is treated as a fresh object, committed nodes being immutable up to nframe)
+//@   requires ndb != nil
+//@   ensures err == nil ==> res != nil && fresh(res) && !inptr[res] && valid(res) && view(res) == dbview(c_ord(cntOf(nk))) && res.nodeKey != nil
+//@   ensures nframe(old(heap(N)), heap(N), old(na))
+//@   modifies nodeDB.*[*], Statistics.*[*]
+//@   allocates Node NodeKey BM
+
+// ---------------------------------------------------------------- node.go
+
+//@ func (*Node).getLeftNode(node, t) (res, err)
+//@   props C01 C02 C11
+//@   requires node != nil && t != nil && t.ndb != nil
+//@   requires node.leftNode != nil ==> valid(node.leftNode)
+//@   ensures err == nil ==> res != nil && valid(res) && view(res) == old(lview(node))
+//@   ensures err == nil && old(node.leftNode) != nil ==> res == old(node.leftNode)
+//@   ensures err == nil && old(node.leftNode) == nil ==> fresh(res) && !inptr[res] && res.nodeKey != nil
+//@   ensures old(node.leftNode) != nil ==> err == nil
+//@   ensures nframe(old(heap(N)), heap(N), old(na))
+//@   modifies nodeDB.*[*], Statistics.*[*]
+
+//@ func (*Node).getRightNode(node, t) (res, err)
+//@   props C01 C02 C11
+//@   requires node != nil && t != nil && t.ndb != nil
+//@   requires node.rightNode != nil ==> valid(node.rightNode)
+//@   ensures err == nil ==> res != nil && valid(res) && view(res) == old(rview(node))
+//@   ensures err == nil && old(node.rightNode) != nil ==> res == old(node.rightNode)
+//@   ensures err == nil && old(node.rightNode) == nil ==> fresh(res) && !inptr[res] && res.nodeKey != nil
+//@   ensures old(node.rightNode) != nil ==> err == nil
+//@   ensures nframe(old(heap(N)), heap(N), old(na))
+//@   modifies nodeDB.*[*], Statistics.*[*]
+
+//@ func (*Node).clone(node, tree) (res, err)
+//@   props C01 C02 C09
+//@   requires node != nil && valid(node) && tree != nil && tree.ImmutableTree != nil && tree.ImmutableTree.ndb != nil
+//@   ensures [shape] err == nil ==> old(node.subtreeHeight) > 0 && res != nil && fresh(res) && !inptr[res] && valid(res) && view(res) == unver(old(view(node)))
+//@   ensures [fields] err == nil ==> res.nodeKey == nil && res.leftNode != nil && res.rightNode != nil && res.hash == nil && res.key == old(node.key) && res.leftNode < res && res.rightNode < res
+//@   ensures [leaf] old(node.subtreeHeight) == 0 ==> err != nil
+//@   ensures [closed] err == nil ==> closed(res)
+//@   ensures [frame] nframe(old(heap(N)), heap(N), old(na))
+//@   modifies node.leftNode, node.rightNode, nodeDB.*[*], Statistics.*[*]
+
+//@ func (*Node).calcHeightAndSize(node, t) (err)
+//@   props C01 C02 C11
+//@   requires node != nil && t != nil && t.ndb != nil
+//@   requires node.leftNode != nil && node.rightNode != nil && valid(node.leftNode) && valid(node.rightNode)
+//@   requires node.nodeKey == nil && node.leftNode != node && node.rightNode != node
+//@   requires !inptr[node] || (node.leftNode < node && node.rightNode < node && closed(node))
+//@   requires hgt(view(node.leftNode)) <= 100 && hgt(view(node.rightNode)) <= 100
+//@   requires siz(view(node.leftNode)) <= 1152921504606846976 && siz(view(node.rightNode)) <= 1152921504606846976
+//@   ensures [noerr] err == nil
+//@   ensures [shape] err == nil ==> valid(node) && view(node) == Inner(cntOf(node.key), imax(hgt(old(view(node.leftNode))), hgt(old(view(node.rightNode)))) + 1, siz(old(view(node.leftNode))) + siz(old(view(node.rightNode))), nodeVer(node), old(view(node.leftNode)), old(view(node.rightNode)))
+//@   ensures [frame] nframeX(old(heap(N)), heap(N), old(na), node)
+//@   modifies node.subtreeHeight, node.size, nodeDB.*[*], Statistics.*[*]
+
+//@ func (*Node).calcBalance(node, t) (b, err)
+//@   props C01 C02 C11
+//@   requires node != nil && t != nil && t.ndb != nil && valid(node) && node.subtreeHeight > 0
+//@   ensures err == nil ==> b == hgt(old(lview(node))) - hgt(old(rview(node)))
+//@   ensures old(node.leftNode) != nil && old(node.rightNode) != nil ==> err == nil
+//@   ensures nframe(old(heap(N)), heap(N), old(na))
+//@   modifies nodeDB.*[*], Statistics.*[*]
